@@ -32,8 +32,7 @@ package s2
 //@ func (p *Polygon) initLoopProperties()
 //@   ghost k int, lat float64, lng float64
 //@   requires p != nil && (forall j int :: 0 <= j && j < len(p.loops) ==> p.loops[j] != nil)
-//@   modifies *p
-//@   noframe
+//@   modifies p.numVertices, p.bound, p.hasHoles, p.subregionBound, p.numEdges, p.cumulativeEdges, p.index
 //@   ensures [bound-covers-shells] (forall j int :: 0 <= j && j < len(p.loops) ==> p.loops[j].bound.IsValid()) && vcLL(lat, lng) && 0 <= k && k < len(p.loops) && !p.loops[k].IsHole() && vcInRect(p.loops[k].bound, lat, lng) ==> vcInRect(p.bound, lat, lng)
 //@   ensures [sub-bound] vcSame(p.subregionBound, ExpandForSubregions(p.bound))
 //@   ensures [vertex-count] p.numVertices == vcVertexTotal(p, len(p.loops))
